@@ -2,22 +2,42 @@
 //! Chainlink report decoding, price decimals, price adjustment, market openness (C24–C29).
 
 pub mod common;
+pub mod decimals;
 pub mod decode;
 pub mod feed;
 
 use simcore::{CheckSpec, Part};
 
-pub const PROPERTIES: &[&str] = &["C25"];
+pub const PROPERTIES: &[&str] = &["C25", "C28", "C26"];
 
 pub fn registry(property: &str) -> Option<CheckSpec> {
     match property {
         "C25" => Some(CheckSpec {
             property: "C25",
             level: "exploration",
-            parts: vec![Part::new(feed::FeedHistory, 40_000, 800_000)],
+            parts: vec![Part::new(feed::FeedHistory, 15_000, 300_000)],
             assumptions: vec![
                 "reports are unsigned: the mock Chainlink verifier program accepts every well-framed report".into(),
                 "report timestamps are u32 (Chainlink schema), so feed timestamps beyond 2106 are unreachable on chain".into(),
+            ],
+        }),
+        "C28" => Some(CheckSpec {
+            property: "C28",
+            level: "fault_enumeration",
+            parts: vec![Part::new(decode::DecodeFaults, 6_000, 120_000)],
+            assumptions: vec![
+                "the ABI-described slice of `(bytes32[3], bytes)` is payload[offset+32 .. offset+32+length] with the full 256-bit offset and length words, offset >= 128 (dynamic data cannot overlap the four head words)".into(),
+                "snappy length prefixes above 2^24 are not injected (a 4 GiB zeroed allocation is the decompressor's, not the decoder's, behaviour)".into(),
+                "panics located in the mock verifier program or in third-party crates during the on-chain path are outside the property".into(),
+            ],
+        }),
+        "C26" => Some(CheckSpec {
+            property: "C26",
+            level: "exploration",
+            parts: vec![Part::new(decimals::DecimalSweep, 15_000, 300_000)],
+            assumptions: vec![
+                "on chain the provider price is an 18-decimals Chainlink report value (< 2^127); other provider decimals (0..40) and the full u128 range are only driven through direct calls of Decimal::try_from_price".into(),
+                "the precision step of a token is 10^(20 - token decimals - precision) in unit-price terms (price per base unit scaled by 10^20)".into(),
             ],
         }),
         _ => None,
